@@ -1,0 +1,287 @@
+// Verification hooks (compiled only with `--cfg picilisp_verif`).
+//
+// This is a child module of `memory`, so it can *read* the private fields of
+// `Memory`, `Cell`, `CellContent` and the heap structs.  Nothing here is used by
+// the normal build.
+
+use super::*;
+use std::cell::Cell as StdCell;
+
+// ---------------------------------------------------------------------------
+// collection schedule: consulted by `allocate_internal` before its own fullness test
+// ---------------------------------------------------------------------------
+
+#[derive(Clone, Copy, PartialEq, Eq, Debug)]
+pub enum GcMode {
+    Natural,       // only when the heap is full (the behaviour of the normal build)
+    Every,         // before every allocation
+    EveryK(u64),   // before every k-th allocation
+    Prng(u64),     // before an allocation with probability 1/4, splitmix64 stream
+}
+
+thread_local! {
+    static GC_MODE:     StdCell<GcMode> = StdCell::new(GcMode::Natural);
+    static ALLOC_COUNT: StdCell<u64>    = StdCell::new(0);
+    static COLLECTIONS: StdCell<u64>    = StdCell::new(0);
+    static MONITOR:     StdCell<bool>   = StdCell::new(false);
+    static MONITOR_FAILURE: std::cell::RefCell<Option<String>> = std::cell::RefCell::new(None);
+}
+
+pub fn set_gc_mode(mode: GcMode) {
+    GC_MODE.with(|m| m.set(mode));
+    ALLOC_COUNT.with(|c| c.set(0));
+    COLLECTIONS.with(|c| c.set(0));
+}
+
+pub fn set_monitor(on: bool) {
+    MONITOR.with(|m| m.set(on));
+    MONITOR_FAILURE.with(|f| *f.borrow_mut() = None);
+}
+
+pub fn monitor_failure() -> Option<String> {
+    MONITOR_FAILURE.with(|f| f.borrow().clone())
+}
+
+pub fn collections() -> u64 {
+    COLLECTIONS.with(|c| c.get())
+}
+
+pub fn allocations() -> u64 {
+    ALLOC_COUNT.with(|c| c.get())
+}
+
+fn splitmix(x: u64) -> u64 {
+    let mut z = x.wrapping_add(0x9E3779B97F4A7C15);
+    z = (z ^ (z >> 30)).wrapping_mul(0xBF58476D1CE4E5B9);
+    z = (z ^ (z >> 27)).wrapping_mul(0x94D049BB133111EB);
+    z ^ (z >> 31)
+}
+
+/// One cell as seen by the verification machinery.
+#[derive(Clone, PartialEq, Eq, Debug)]
+pub struct CellView {
+    pub addr:     usize,
+    pub rc:       usize,
+    pub kind:     String,       // num chr cons sym usym fun nat trap meta
+    pub payload:  String,       // scalar payload (decimal / code points / flags)
+    pub children: Vec<usize>,   // raw child pointers in declaration order (0 = null)
+}
+
+fn cps(s: &str) -> String {
+    s.chars().map(|c| (c as u32).to_string()).collect::<Vec<_>>().join(".")
+}
+
+fn view_of(content: &CellContent, addr: usize) -> CellView {
+    let (kind, payload, children) =
+    match &content.metavalue {
+        MetaValue::Meta{ value, meta } => {
+            let loc = match &meta.location {
+                crate::metadata::Location::Native                   => "n:0:0".to_string(),
+                crate::metadata::Location::Prelude{line, column}    => format!("p:{line}:{column}"),
+                crate::metadata::Location::Stdin{line, column}      => format!("s:{line}:{column}"),
+                crate::metadata::Location::File{line, column, ..}   => format!("f:{line}:{column}"),
+            };
+            ("meta".to_string(), format!("{}|{}", cps(&meta.read_name), loc), vec![*value as usize])
+        },
+        MetaValue::Value(PrimitiveValue::Number(n))    => ("num".to_string(), n.to_string(), vec![]),
+        MetaValue::Value(PrimitiveValue::Character(c)) => ("chr".to_string(), (*c as u32).to_string(), vec![]),
+        MetaValue::Value(PrimitiveValue::Cons(c))      => ("cons".to_string(), String::new(), vec![c.car as usize, c.cdr as usize]),
+        MetaValue::Value(PrimitiveValue::Symbol(s))    => {
+            match &s.name {
+                Some(n) => ("sym".to_string(),  cps(n),        vec![s.own_address as usize]),
+                None    => ("usym".to_string(), String::new(), vec![s.own_address as usize]),
+            }
+        },
+        MetaValue::Value(PrimitiveValue::Trap(t))      => ("trap".to_string(), String::new(), vec![t.normal_body as usize, t.trap_body as usize]),
+        MetaValue::Value(PrimitiveValue::Function(Function::NormalFunction(f))) => {
+            let mut ch = vec![f.body as usize, f.environment as usize];
+            for p in f.parameters.iter() {
+                ch.push(*p as usize);
+            }
+            ("fun".to_string(), format!("{}|{}|{}", f.kind.to_string(), if f.has_rest_params {1} else {0}, cps(&f.environment_module)), ch)
+        },
+        MetaValue::Value(PrimitiveValue::Function(Function::NativeFunction(f))) => {
+            ("nat".to_string(), format!("{}|{}", f.kind.to_string(), f.parameters.len()), vec![])
+        },
+    };
+    CellView{ addr, rc: content.external_ref_count, kind, payload, children }
+}
+
+pub struct Snapshot {
+    pub len:        usize,
+    pub first_free: usize,
+    pub cells:      Vec<CellView>,            // the used prefix, in vector order
+    pub free_addrs: Vec<usize>,               // boxes of the free suffix, in vector order
+    pub free_rc:    Vec<usize>,               // their handle counts (must all be 0)
+    pub symbols:    Vec<(String, usize)>,     // symbol table, sorted by name
+    pub modules:    Vec<(String, Vec<(String, usize)>, Option<Vec<String>>)>, // sorted
+    pub current:    String,
+}
+
+impl Memory {
+    pub fn verif_collect(&mut self) {
+        self.collect();
+    }
+
+    pub fn verif_snapshot(&self) -> Snapshot {
+        let mut cells = vec![];
+        for i in 0 .. self.first_free {
+            let c = &self.cells[i];
+            cells.push(view_of(&c.content, c.as_ptr_mut() as usize));
+        }
+        let mut free_addrs = vec![];
+        let mut free_rc    = vec![];
+        for i in self.first_free .. self.cells.len() {
+            free_addrs.push(self.cells[i].as_ptr_mut() as usize);
+            free_rc.push(self.cells[i].content.external_ref_count);
+        }
+        let mut symbols = self.symbols.iter().map(|(k, v)| (k.clone(), *v as usize)).collect::<Vec<_>>();
+        symbols.sort();
+        let mut modules = vec![];
+        for (name, m) in self.modules.iter() {
+            let m = m.borrow();
+            let mut defs = m.definitions.iter().map(|(k, v)| (k.clone(), v.pointer as usize)).collect::<Vec<_>>();
+            defs.sort();
+            let exports = m.exports.as_ref().map(|e| { let mut v = e.iter().cloned().collect::<Vec<_>>(); v.sort(); v });
+            modules.push((name.clone(), defs, exports));
+        }
+        modules.sort();
+        Snapshot{ len: self.cells.len(), first_free: self.first_free, cells, free_addrs, free_rc, symbols, modules, current: self.get_current_module() }
+    }
+
+    /// called at the top of `allocate_internal`
+    pub(super) fn verif_before_allocate(&mut self) {
+        let n = ALLOC_COUNT.with(|c| { let n = c.get() + 1; c.set(n); n });
+        let forced =
+        match GC_MODE.with(|m| m.get()) {
+            GcMode::Natural   => false,
+            GcMode::Every     => true,
+            GcMode::EveryK(k) => k > 0 && n % k == 0,
+            GcMode::Prng(s)   => splitmix(s ^ n.wrapping_mul(0x2545F4914F6CDD1D)) % 4 == 0,
+        };
+        if forced {
+            self.collect();
+        }
+    }
+
+    /// called at the top of `collect`: remember what is reachable from the roots
+    pub(super) fn verif_pre_collect(&self) -> Option<Vec<CellView>> {
+        COLLECTIONS.with(|c| c.set(c.get() + 1));
+        if !MONITOR.with(|m| m.get()) {
+            return None;
+        }
+        // independent reachability computation WITH a visited set
+        let mut index = std::collections::HashMap::new();
+        for i in 0 .. self.first_free {
+            index.insert(self.cells[i].as_ptr_mut() as usize, i);
+        }
+        let mut seen  = std::collections::HashSet::new();
+        let mut stack = vec![];
+        for i in 0 .. self.first_free {
+            if self.cells[i].content.external_ref_count > 0 {
+                stack.push(self.cells[i].as_ptr_mut() as usize);
+            }
+        }
+        let mut views = vec![];
+        while let Some(a) = stack.pop() {
+            if a == 0 || !seen.insert(a) {
+                continue;
+            }
+            match index.get(&a) {
+                Some(i) => {
+                    let v = view_of(&self.cells[*i].content, a);
+                    for ch in v.children.iter() {
+                        if v.kind != "sym" && v.kind != "usym" {
+                            stack.push(*ch);
+                        }
+                    }
+                    views.push(v);
+                },
+                None => {
+                    MONITOR_FAILURE.with(|f| { let mut f = f.borrow_mut(); if f.is_none() { *f = Some(format!("before collection: reachable pointer {a:#x} is not a used cell")); } });
+                },
+            }
+        }
+        Some(views)
+    }
+
+    /// called at the end of `collect`: everything that was reachable is still used and unchanged
+    pub(super) fn verif_post_collect(&self, before: Option<Vec<CellView>>) {
+        let before = if let Some(b) = before {b} else {return;};
+        let mut index = std::collections::HashMap::new();
+        for i in 0 .. self.first_free {
+            index.insert(self.cells[i].as_ptr_mut() as usize, i);
+        }
+        let mut fail = None;
+        for v in before.iter() {
+            match index.get(&v.addr) {
+                Some(i) => {
+                    let now = view_of(&self.cells[*i].content, v.addr);
+                    if now != *v {
+                        fail = Some(format!("after collection: reachable cell {:#x} changed from {:?} to {:?}", v.addr, v, now));
+                        break;
+                    }
+                },
+                None => {
+                    fail = Some(format!("after collection: reachable cell {:#x} ({:?}) is no longer in the used prefix", v.addr, v));
+                    break;
+                },
+            }
+        }
+        if fail.is_none() && index.len() != before.len() {
+            fail = Some(format!("after collection: {} cells in use but {} were reachable", index.len(), before.len()));
+        }
+        if fail.is_none() {
+            for i in self.first_free .. self.cells.len() {
+                if self.cells[i].content.external_ref_count != 0 {
+                    fail = Some(format!("after collection: free cell with handle count {}", self.cells[i].content.external_ref_count));
+                    break;
+                }
+            }
+        }
+        if fail.is_none() {
+            for (name, ptr) in self.symbols.iter() {
+                match index.get(&(*ptr as usize)) {
+                    Some(i) => {
+                        let v = view_of(&self.cells[*i].content, *ptr as usize);
+                        if v.kind != "sym" || v.payload != cps(name) {
+                            fail = Some(format!("after collection: symbol table entry {name} designates {:?}", v));
+                            break;
+                        }
+                    },
+                    None => {
+                        fail = Some(format!("after collection: symbol table entry {name} designates a free cell"));
+                        break;
+                    },
+                }
+            }
+        }
+        if let Some(msg) = fail {
+            MONITOR_FAILURE.with(|f| { let mut f = f.borrow_mut(); if f.is_none() { *f = Some(msg); } });
+        }
+    }
+}
+
+impl GcRef {
+    pub fn verif_addr(&self) -> usize {
+        self.pointer as usize
+    }
+}
+
+impl NativeFunction {
+    pub fn verif_fn_addr(&self) -> usize {
+        self.function as usize
+    }
+}
+
+impl NormalFunction {
+    pub fn verif_has_rest(&self) -> bool {
+        self.has_rest_params
+    }
+}
+
+impl Symbol {
+    pub fn verif_is_unique(&self) -> bool {
+        self.name.is_none()
+    }
+}
